@@ -118,7 +118,10 @@ class CallMixin:
             raise Unsupported("bytes()")
         if name in ("list", "tuple"):
             items = self.unpack(args[0], st, n) if args else []
-            return VTuple(items) if name == "tuple" else st.alloc("list", {"$l": VList(items)})
+            if name == "tuple": return VTuple(items)
+            # ghost fields of a list under contract (e.g. the hidden-prefix length "$plen") describe its contents and are copied with them
+            ghost = {k: v for k, v in st.heap.get(args[0].oid, {}).items() if k.startswith("$") and k != "$l"} if args and isinstance(args[0], VRef) and "$l" in st.heap.get(args[0].oid, {}) else {}
+            return st.alloc("list", {"$l": VList(items), **ghost})
         if name in ("max", "min"):
             vals = args if len(args) > 1 else self.unpack(args[0], st, n)
             if any(isinstance(v, VOpaque) for v in vals): return self.opaque_op(name, vals, st, n)
@@ -415,7 +418,7 @@ class CallMixin:
             items = list(l.items); v = items.pop(i)
             st.heap[recv.oid]["$l"] = VList(items); return v
         if name == "copy":
-            return st.alloc("list", {"$l": VList(list(l.items))})
+            return st.alloc("list", {"$l": VList(list(l.items)), **{k: v for k, v in st.heap[recv.oid].items() if k.startswith("$") and k != "$l"}})
         if name == "index":
             return self.call_method(l, "index", args, kwargs, st, n)
         if name == "remove":
